@@ -709,8 +709,13 @@ class Differ:
             else:
                 self._diff_scalars(path, lhs, rhs, **kwargs)
         else:
-            self._purge_document(path, lhs)
-            self._add_everything(path, rhs)
+            # An empty document (no data at the root) has nothing to delete
+            # and adds nothing; a null anywhere else is a value.
+            at_root = len(path) < 1
+            if not (at_root and lhs is None):
+                self._purge_document(path, lhs)
+            if not (at_root and rhs is None):
+                self._add_everything(path, rhs)
 
     @classmethod
     def synchronize_lists_by_value(
